@@ -275,6 +275,32 @@ func genC01(e *emitter, tier string, seed uint64) map[string]interface{} {
 			{item{rep: true, b: 'q', n: 1 + rg.intn(20)}, item{rep: true, b: 'w', n: 30000 + rg.intn(2000)}}}
 		roundtripCase(e, p, []int{0, 1}[rg.intn(2)], true, "v2/big-metadata")
 	}
+	// metadata blocks landing exactly on / just below the 65535-byte budget (in domain), and just above it (outside the
+	// domain: pairs are dropped silently; model/code agreement only)
+	for _, total := range []int{65533, 65534, 65535, 65536, 65537, 65540} {
+		for rep2 := 0; rep2 < 2; rep2++ {
+			p := mk(2, types[rg.intn(3)], rep2 == 0, 0, rg.pick([]int{0, 3, 300}))
+			// "a"->v1 (2-byte prefix), "m"->v2, "z-last"->"end": sizes chosen so that the sorted block has exactly `total` bytes
+			last := len(encStr([]byte("z-last"))) + len(encStr([]byte("end")))
+			fixed := len(encStr([]byte("a"))) + 2 + len(encStr([]byte("m"))) + 2 + last
+			rest := total - fixed
+			v1n := rest / 2
+			v2n := rest - v1n // both <= 32767
+			p.pairs = [][2]item{{item{data: []byte("z-last")}, item{data: []byte("end")}},
+				{item{data: []byte("a")}, item{rep: true, b: 'A', n: v1n}}, {item{data: []byte("m")}, item{rep: true, b: 'M', n: v2n}}}
+			if mdSize(p.pairs) != total {
+				panic(fmt.Sprintf("generator: metadata size %d, wanted %d", mdSize(p.pairs), total))
+			}
+			roundtripCase(e, p, 0, total <= 65535, fmt.Sprintf("v2/metadata-at-budget/%d", total))
+			// the sorted-LAST pair is a big one (two-byte prefix): a budget check that miscounts prefixes lets it through
+			p2 := mk(2, types[rg.intn(3)], rep2 == 0, 0, rg.pick([]int{0, 3, 300}))
+			fixed2 := len(encStr([]byte("a"))) + len(encStr([]byte("x"))) + len(encStr([]byte("m"))) + 2 + len(encStr([]byte("z"))) + 2
+			rest2 := total - fixed2
+			p2.pairs = [][2]item{{item{data: []byte("z")}, item{rep: true, b: 'Z', n: rest2 - rest2/2}}, {item{data: []byte("a")}, item{data: []byte("x")}},
+				{item{data: []byte("m")}, item{rep: true, b: 'M', n: rest2 / 2}}}
+			overBudgetCase(e, p2, total)
+		}
+	}
 	// unrepresentable packets: unknown type
 	for _, version := range []int{1, 2} {
 		for _, typ := range []string{"", "other", "Request", "PUSH"} {
@@ -331,4 +357,53 @@ func classOfLen(n int) string {
 		return "<16M"
 	}
 	return ">=16M"
+}
+
+// overBudgetCase: a v2 packet whose map may exceed the metadata budget. In the domain (total <= 65535) it is an ordinary round trip;
+// above it pairs are dropped silently (an observation, not a violation) — but what is sent must still decode to the same body and
+// to a SUB-map of the metadata: "never bytes that decode to something else".
+func overBudgetCase(e *emitter, p *pkt, total int) {
+	if mdSize(p.pairs) != total {
+		panic(fmt.Sprintf("generator: metadata size %d, wanted %d", mdSize(p.pairs), total))
+	}
+	if total <= 65535 {
+		roundtripCase(e, p, 0, true, fmt.Sprintf("v2/metadata-at-budget-big-last/%d", total))
+		return
+	}
+	orig := p.body.bytes()
+	pk := p.build(protocol.CodecProtobuf)
+	var frame []byte
+	res := guard(func() string {
+		f, err := proto(2).Pack(newCtx(2, protocol.CodecProtobuf), pk)
+		if err != nil {
+			return "err"
+		}
+		frame = f
+		return fmt.Sprintf("ok %s gzip=0", showBytes(f))
+	})
+	idx := e.op(p.packLine(0, ""), res, "v2/over-budget-metadata", true)
+	if frame == nil {
+		return
+	}
+	q, err := proto(2).UnpackBytes(newCtx(2, protocol.CodecProtobuf), frame)
+	if err != nil {
+		e.fail(idx, "over_budget_decodes_to_something_else", "a packet with an over-budget metadata map was encoded to bytes the decoder rejects")
+		return
+	}
+	if !bytes.Equal(q.Body, orig) {
+		e.fail(idx, "over_budget_decodes_to_something_else", fmt.Sprintf("over-budget metadata (%d bytes): the frame decodes to a different body (%d vs %d bytes)", total, len(q.Body), len(orig)))
+		return
+	}
+	for k, v := range q.Metadata.Values {
+		found := false
+		for _, kv := range p.pairs {
+			if strings.ToLower(string(kv[0].bytes())) == k && string(kv[1].bytes()) == v {
+				found = true
+			}
+		}
+		if !found {
+			e.fail(idx, "over_budget_decodes_to_something_else", "decoded metadata holds a pair that is not in the input map")
+			return
+		}
+	}
 }
